@@ -2,13 +2,11 @@
 
 The class grammar has three parsers for a backslash escape inside `[...]`: try_consume_bracket_class_atom (classic / u),
 consume_class_set_operand and consume_class_set_character (v mode, the latter also inside `\\q{..}`). In each of them the arm
-for the letter `b` (pattern `'b'` / 0x62) must produce the constant 8 (backspace) and must not hand on the consumed
+for the letter `b` (the 0x62 edge of the switch on the escaped character, or the true edge of `x == 0x62`) must produce the constant 8 (backspace) and must not hand on the consumed
 character itself (`self.consume(cp)` used as the value), which is how the arms for self-denoting punctuators work. The
 siblings must agree: a v-mode class must not differ from a u-mode class on `[\\b]`.
 """
-import json
-
-from . import core, hirutil as H
+from . import core
 from .report import RuleResult
 
 RULE_TEXT = " ".join(x.strip() for x in __doc__.split("\n")[2:] if x.strip())
@@ -16,48 +14,64 @@ FNS = ("parse::Parser::<I>::try_consume_bracket_class_atom", "parse::Parser::<I>
        "parse::Parser::<I>::consume_class_set_character")
 
 
+def b_edges(b):
+    """Blocks entered exactly when the inspected character is `b` (0x62): the 0x62 target of a switch on a character / code
+    point, or the true edge of a test `x == 0x62`."""
+    out = []
+    for bi in sorted(b.reachable()):
+        t = b.blocks[bi]["t"]
+        if t["k"] != "switch":
+            continue
+        if t.get("dty") in ("char", "u32"):
+            out += [(tg, t.get("line")) for v, tg in t["targets"] if v == 0x62]
+        elif t.get("dty") == "bool" and t["discr"].get("k") in ("copy", "move"):
+            d = b.single_def(t["discr"]["pl"]["l"])
+            for _ in range(4):   # through plain copies (`let is_backspace = cp == 0x62; if is_backspace`)
+                if d and d[2] == "assign" and d[3]["rv"]["k"] == "use" and d[3]["rv"]["op"].get("k") in ("copy", "move") and not d[3]["rv"]["op"]["pl"]["p"]:
+                    d = b.single_def(d[3]["rv"]["op"]["pl"]["l"])
+            if d and d[2] == "assign" and d[3]["rv"]["k"] == "bin" and d[3]["rv"]["op"] == "Eq" and \
+                    0x62 in (b.const_of_operand(d[3]["rv"]["a"]), b.const_of_operand(d[3]["rv"]["b"])):
+                out.append((t["otherwise"], t.get("line")))
+    return out
+
+
 def check(facts):
     r = RuleResult("CLASSESCB", RULE_TEXT)
     n = 0
     for fn in FNS:
-        if fn not in facts.hir:
+        if not facts.has_body(fn):
             r.error("anchor %s not found" % fn)
             continue
-        arms = []
-
-        def visit(node, ps):
-            if node.get("k") == "match":
-                for a in node.get("arms", []):
-                    p = a["pat"]
-                    vals = set()
-
-                    def lits(q):
-                        if q.get("k") == "lit" and isinstance(q.get("v"), int):
-                            vals.add(q["v"])
-                        for sub in q.get("pats", []) or []:
-                            lits(sub)
-                    lits(p)
-                    if vals == {0x62} and a.get("guard") is None:
-                        arms.append(a)
-        core.hir_walk(facts.hir[fn]["body"], visit)
-        # only arms inside the backslash handling produce a class member; the Term-level \b is not in these functions
-        for a in arms:
+        b = facts.body(fn)
+        dom = b.dom()
+        for e, line in b_edges(b):
+            region = {x for x in b.reachable() if e == x or e in dom[x]}
             n += 1
             key = "%s arm for `\\b`" % fn
-            txt = json.dumps(a["body"])
-            has8 = '"k": "lit"' in txt and any(('"v": %d' % 8) in seg for seg in txt.split('"k": "lit"')[1:])
-            # does the arm's value come from consume(..)?  `Ok(self.consume(cp))` / `ClassSetCharacter(self.consume(cp))`
-            body = a["body"]
-            tail = body
-            while isinstance(tail, dict) and tail.get("k") == "block":
-                tail = tail.get("expr") or {}
-            returns_consumed = '"name": "consume"' in json.dumps(tail)
-            if has8 and not returns_consumed:
+            has8 = False
+            consumed = False
+            for x in sorted(region):
+                for st in b.blocks[x]["s"]:
+                    if st["k"] != "assign" or st["rv"]["k"] != "agg":
+                        continue
+                    for op in st["rv"].get("ops") or []:
+                        if b.const_of_operand(op) == 8:
+                            has8 = True
+                        if op.get("k") in ("copy", "move") and not op["pl"]["p"]:
+                            d8 = b.single_def(op["pl"]["l"])
+                            if d8 and d8[2] == "call" and (d8[3].get("callee") or "").split("::")[-1] in ("from", "into") and d8[3]["args"] \
+                                    and b.const_of_operand(d8[3]["args"][0]) == 8:
+                                has8 = True   # u32::from('\x08')
+                        if op.get("k") in ("copy", "move"):
+                            d = b.single_def(b.root_of(op["pl"]["l"])[0])
+                            if d and d[2] == "call" and (d[3].get("callee") or "").split("::")[-1] == "consume" and d[0] in region:
+                                consumed = True
+            if has8 and not consumed:
                 r.ok(key, "yields U+0008")
-                r.sample({"function": fn, "line": a.get("line")})
+                r.sample({"function": fn, "line": line})
             else:
                 r.fail(key, "the class escape `\\b` yields %s instead of the constant U+0008 (line %s): `[\\b]` matches the letter b in this "
-                            "class parser while its siblings match backspace" % ("the consumed character" if returns_consumed else "something else",
-                                                                                a.get("line")), facts.loc(fn, a.get("line")))
+                            "class parser while its siblings match backspace" % ("the consumed character" if consumed else "something else", line),
+                       facts.loc(fn, line))
     r.floor("class_escape_b_arms", n, 3)
     return r
